@@ -26,7 +26,7 @@ type vfBackend struct {
 	wake    chan struct{}
 	closed  chan struct{}
 	isClosed bool
-	order   []int // for C01.d: ids of requests in the order their bytes arrived
+	writeErr error
 }
 
 const vfReqLen = 14 // *1\r\n$4\r\nping\r\n
@@ -34,7 +34,7 @@ const vfReqLen = 14 // *1\r\n$4\r\nping\r\n
 var vfErrReset = errors.New("vf: connection reset by peer")
 
 func vfNewBackend() *vfBackend {
-	return &vfBackend{failWriteAt: -1, wake: make(chan struct{}, 8), closed: make(chan struct{})}
+	return &vfBackend{failWriteAt: -1, writeErr: vfErrReset, wake: make(chan struct{}, 8), closed: make(chan struct{})}
 }
 
 func (b *vfBackend) Write(p []byte) (int, error) {
@@ -44,7 +44,7 @@ func (b *vfBackend) Write(p []byte) (int, error) {
 		return 0, vfErrReset
 	}
 	if k == b.failWriteAt {
-		return 0, vfErrReset
+		return 0, b.writeErr
 	}
 	b.got += len(p)
 	select {
@@ -112,6 +112,9 @@ func VfC02_ClientLifecycle() {
 	be.silent = nd.Bool("backend-silent")
 	if nd.Bool("write-fails") {
 		be.failWriteAt = nd.Concrete(nd.IntRange("failat", 0, 1))
+		if nd.Bool("closed-error") { // the error text net.Conn returns after a local Close
+			be.writeErr = errors.New("write tcp 10.0.0.1:1->10.0.0.2:2: use of closed network connection")
+		}
 	}
 	be.resetOnRead = nd.Bool("backend-resets")
 	c := vfNewClient(be, nd.Param("qcap", 2))
